@@ -299,9 +299,6 @@ protected:
                 double _imag = ((const double*)&value_i)[Size - i - 1];
                 data[Size - i - 1] = std::complex<double>(_real,_imag);
             }
-            else {
-                data[Size - i - 1] = std::complex<double>(0,0);
-            }
         }
 #endif
     }
@@ -321,9 +318,6 @@ protected:
                 double _real = ((const double*)&value_r)[Size - i - 1];
                 double _imag = ((const double*)&value_i)[Size - i - 1];
                 data[Size - i - 1] = std::complex<double>(_real,_imag);
-            }
-            else {
-                data[Size - i - 1] = std::complex<double>(0,0);
             }
         }
 #endif
@@ -825,9 +819,6 @@ protected:
                 double _imag = ((const double*)&value_i)[Size - i - 1];
                 data[Size - i - 1] = std::complex<double>(_real,_imag);
             }
-            else {
-                data[Size - i - 1] = std::complex<double>(0,0);
-            }
         }
 #endif
     }
@@ -847,9 +838,6 @@ protected:
                 double _real = ((const double*)&value_r)[Size - i - 1];
                 double _imag = ((const double*)&value_i)[Size - i - 1];
                 data[Size - i - 1] = std::complex<double>(_real,_imag);
-            }
-            else {
-                data[Size - i - 1] = std::complex<double>(0,0);
             }
         }
 #endif
@@ -1367,9 +1355,6 @@ protected:
                 double _imag = ((const double*)&value_i)[Size - i - 1];
                 data[Size - i - 1] = std::complex<double>(_real,_imag);
             }
-            else {
-                data[Size - i - 1] = std::complex<double>(0,0);
-            }
         }
 #endif
     }
@@ -1389,9 +1374,6 @@ protected:
                 double _real = ((const double*)&value_r)[Size - i - 1];
                 double _imag = ((const double*)&value_i)[Size - i - 1];
                 data[Size - i - 1] = std::complex<double>(_real,_imag);
-            }
-            else {
-                data[Size - i - 1] = std::complex<double>(0,0);
             }
         }
 #endif
